@@ -26,7 +26,7 @@ from ..core import hx, unhx, parallel_map, LEAN, BUILD
 from .. import termmodel as T
 
 DRIVERS = ["drv_style"]
-GENERATED = ["StyleGuards"]     # the rest is found through the imports of Props.C12 / Driver.Style
+GENERATED = ["StyleGuards", "DecoArms"]     # the rest is found through the imports of Props.C12 / Driver.Style
 
 
 _SIG_COUNT = {}
@@ -1996,6 +1996,282 @@ def other_options_oracle(ctx, rep, baseline=None):
                       dict(replay, option=o, given=s, assign=assign, got=[T.style_key(c.fg, c.bg, c.attrs) for c in bad[:3]]))
 
 
+# --------------------------------------------------------------------------- T12: decoration words inside style strings
+
+# Independent statement of the rule (delta --help: "*-decoration-style … should contain one of the special attributes 'box',
+# 'ul' (underline), 'ol' (overline), or the combination 'ul ol'"; parse_style.rs: in an element's own style string `box`,
+# `underline`, `overline` request a decoration, `ul` stays a text attribute, `none` / `plain` are dropped in both).
+_KINDNAME = {frozenset(): "none", frozenset(["ul"]): "ul", frozenset(["ol"]): "ol", frozenset(["ul", "ol"]): "ulol",
+             frozenset(["box"]): "box", frozenset(["box", "ul"]): "boxul", frozenset(["box", "ol"]): "boxol",
+             frozenset(["box", "ul", "ol"]): "boxulol"}
+
+
+def _dw_tokens(s):
+    return [w.strip("\"'") for w in s.lower().split()]
+
+
+def decowords_rule(style, deco):
+    """(kind name, the element's style string without its decoration words, the decoration string without shape words)."""
+    sp, kept = set(), []
+    for t in _dw_tokens(style):
+        if t == "box":
+            sp.add("box")
+        elif t == "overline":
+            sp.add("ol")
+        elif t == "underline":
+            sp.add("ul")
+        elif t in ("none", "plain"):
+            pass
+        else:
+            kept.append(t)
+    dk, dkept = set(), []
+    for t in _dw_tokens(deco or ""):
+        if t == "box":
+            dk.add("box")
+        elif t in ("ol", "overline"):
+            dk.add("ol")
+        elif t in ("ul", "underline"):
+            dk.add("ul")
+        elif t in ("none", "plain"):
+            pass
+        else:
+            dkept.append(t)
+    return _KINDNAME[frozenset(sp or dk)], " ".join(kept), " ".join(dkept)
+
+
+def _dw_canon(s):
+    ws = sorted(set(w for w in _dw_tokens(s) if w in ("box", "ul", "ol", "underline", "overline", "none", "plain")))
+    return "+".join(ws) or "-"
+
+
+DW_DECO_VOCAB = ["box", "ul", "ol", "underline", "overline", "none", "plain", "red", "bold", "omit"]
+DW_ELEM_VOCAB = ["box", "ul", "ol", "underline", "overline", "none", "plain", "red", "bold", "17", "omit", "raw"]
+DW_DECO_STRINGS = ["-", "", "none", "ul", "blue ul", "box", "ol ul", "bold red box ul ol", "underline", "omit ul", "OL  'box'"]
+
+
+def corr_decowords(ctx, rep, mdl):
+    """Hook `style.parse special|deco` (the real `from_str_with_handling_of_special_decoration_attributes` /
+    `DecorationStyle::from_str`) vs the table-driven model functions `DecoWords.fromStrSpecialT` / `parseDecoT`
+    (`decowords.parse`), exhaustively over small vocabularies; `cfg [--color-only]` + `style.config_style` vs
+    `DecoWords.configStyleT` (`decowords.config`). Direct oracle on the hook's answers: the decoration kind is the
+    independent rule's; the text part of an element style equals the implementation's own plain parse of the string with
+    the decoration words removed."""
+    rng = ctx.rng
+    cases = []
+    ex = [""]
+    for n in (1, 2, 3):
+        ex += [" ".join(t) for t in itertools.product(DW_DECO_VOCAB, repeat=n)]
+    if ctx.quick():
+        ex = [e for e in ex if len(e.split()) <= 2 or rng.random() < 0.3]
+    for e in ex:
+        cases.append(("deco", e, "-"))
+    for e in ["raw ul", "syntax box", "ul raw", "omit ul", "auto box", "ul auto auto", "Box UL", "\"ul\" 'ol'", "ul\tol", "ul ul ul"]:
+        cases.append(("deco", e, "-"))
+    el = [""]
+    for n in (1, 2):
+        el += [" ".join(t) for t in itertools.product(DW_ELEM_VOCAB, repeat=n)]
+    for e in el:
+        for d in (DW_DECO_STRINGS if not ctx.quick() or len(e.split()) < 2 else rng.sample(DW_DECO_STRINGS, 4)):
+            cases.append(("special", e, d))
+    for _ in range(ctx.n(200, 3000)):
+        e = mess_case(rng, " ".join(rng.choice(DW_ELEM_VOCAB) for _ in range(rng.randint(1, 4))))
+        cases.append(("special", e, rng.choice(DW_DECO_STRINGS)))
+    hreq, mreq, preq = [], [], []
+    for kind, e, d in cases:
+        df = "-" if d == "-" else hx(d)
+        hreq.append("style.parse %s - 1 %s %s" % (kind, hx(e), df))
+        mreq.append("decowords.parse %s - 1 %s %s -" % (kind, hx(e), df))
+        if kind == "special":
+            preq.append("style.parse plain - 1 %s -" % hx(decowords_rule(e, "")[1]))
+    impl = [canon_fatal(r) for r in ask_hook_chunked(ctx, hreq)]
+    plain = iter([canon_fatal(r) for r in ask_hook_chunked(ctx, preq)])
+    model = mdl.ask(mreq)
+    for (kind, e, d), i, m in zip(cases, impl, model):
+        rep.case(key=("decowords", kind, e, d), nontrivial=bool(e.strip()),
+                 sample=dict(op="style.parse", kind=kind, style=e, deco=d, impl=i))
+        rep.count("decowords:" + kind + ":" + ("fatal" if i.startswith("FATAL") else "ok" if i.startswith("ok") else "other"))
+        rep.corr_case("decowords.parse", i == m, dict(kind=kind, style=e, deco=d, impl=i, model=m))
+        replay = dict(kind="hook", op="style.parse", parse_kind=kind, style=e, deco=d)
+        if kind == "deco":
+            if i.startswith("ok "):
+                want = decowords_rule("", e)[0]
+                got = i.split(" ")[1].split("/")[0]
+                if got != want:
+                    _viol(rep, "decowords:hook:decoration-kind-differs:deco-words=" + _dw_canon(e),
+                          "DecorationStyle::from_str: the decoration kind is not that of the set of shape words",
+                          dict(replay, expected=want, got=i))
+            elif not i.startswith("FATAL"):
+                _viol(rep, "decowords:hook:decoration-string-aborts", "DecorationStyle::from_str aborts", dict(replay, got=i))
+            continue
+        pl = next(plain)
+        if i.startswith("ok "):
+            f = i.split(" ")
+            want = decowords_rule(e, "" if d == "-" else d)[0]
+            if f[3].split("/")[0] != want:
+                _viol(rep, "decowords:hook:decoration-kind-differs:style-words=%s:deco-words=%s" % (_dw_canon(e), _dw_canon(d)),
+                      "the decoration kind is not that of the style string's decoration words (else the decoration option's)",
+                      dict(replay, expected=want, got=i))
+            if not pl.startswith("ok ") or pl.split(" ")[1:3] != f[1:3]:
+                _viol(rep, "decowords:hook:text-part-differs:style-words=" + _dw_canon(e),
+                      "the text colours / attributes of an element style differ from those of the string without its decoration words",
+                      dict(replay, stripped=decowords_rule(e, "")[1], plain=pl, got=i))
+        elif not i.startswith("FATAL"):
+            _viol(rep, "decowords:hook:element-style-aborts", "from_str_with_handling_of_special_decoration_attributes aborts",
+                  dict(replay, got=i))
+    # --color-only through the whole Config
+    jobs = []
+    pairs = [("yellow box", "blue ul"), ("underline red", "none"), ("overline bold", "box"), ("ul 17", "ol"),
+             ("box underline overline", "bold red box ul ol"), ("red", "blue box"), ("none box", ""), ("BOX ul", "green ul ol")]
+    for key in ("commit-style", "file-style", "hunk-header-style"):
+        for co in (0, 1):
+            for e, d in pairs:
+                jobs.append((key, co, e, d))
+
+    def one(job):
+        key, co, e, d = job
+        a = [hx("--%s=%s" % (key, e)), hx("--%s=%s" % (DECO_OPTION[key], d))] + ([hx("--color-only")] if co else [])
+        return ctx.hook().ask(["cfg " + " ".join(a), "style.config_style " + key], sticky=[0])
+    res = parallel_map(one, jobs)
+    model = mdl.ask(["decowords.config %d %s 1 %s %s -" % (co, hx(key), hx(e), hx(d)) for key, co, e, d in jobs])
+    for (key, co, e, d), r, m in zip(jobs, res, model):
+        got = " ".join(r[1].split(" ")[:4])
+        rep.case(key=("decowords.config", key, co, e, d), nontrivial=True)
+        rep.count("decowords:config:color-only=%d" % co)
+        rep.corr_case("decowords.config", got == m, dict(option=key, color_only=co, style=e, deco=d, impl=got, model=m))
+        if got.startswith("ok "):
+            want = "none" if co else decowords_rule(e, d)[0]
+            if got.split(" ")[3].split("/")[0] != want:
+                _viol(rep, "decowords:config:decoration-kind-differs:%s:color-only=%d:style-words=%s" % (key, co, _dw_canon(e)),
+                      "the configured style's decoration is not the rule's (none under --color-only)",
+                      dict(kind="hook", option=key, color_only=co, style=e, deco=d, expected=want, got=got))
+
+
+DW_ELEMENT_WORDS = ["", "box", "underline", "overline", "underline overline", "overline underline", "box underline", "BOX",
+                    "\"box\"", "none", "plain", "ul", "ul underline", "ul box", "box box", "box overline",
+                    "box underline overline", "none box"]
+DW_OPTION_WORDS = ["none", "", "ul", "ol", "ul ol", "ol ul", "box", "box ul", "UL", "underline", "overline",
+                   "Underline OVERLINE", "ul ul", "'box'", "plain", "box ol", "box ul ol", "none ul"]
+
+
+def _observed_shape(dec, starts):
+    """Shape of what is drawn around the first row whose text starts with / contains `starts`: none ul ol ulol box boxul."""
+    rows = [r.text() for r in dec.rows]
+    at = next((k for k, t in enumerate(rows) if (t.startswith(starts[1:]) if starts[0] == "^" else starts[1:] in t)), None)
+    if at is None:
+        return None, None
+    t = rows[at]
+    def rule(k):
+        return 0 <= k < len(rows) and rows[k] != "" and all(c in "─━" for c in rows[k])
+    if any(c in "│┃" for c in t):
+        below = rows[at + 1] if at + 1 < len(rows) else ""
+        return ("boxul" if any(c in "┴┻" for c in below) else "box"), at
+    ol, ul = rule(at - 1), rule(at + 1)
+    return ("ulol" if ol and ul else "ol" if ol else "ul" if ul else "none"), at
+
+
+_DW_NEEDLE = {"file-style": "^fileq.zzz", "commit-style": "^commit 1111", "hunk-header-style": "~fragq"}
+
+
+def deco_words_oracle(ctx, rep):
+    """Real binary: commit line, file header, hunk header x decoration words in the element's own style string x shape words
+    in the `*-decoration-style` option (orders, case, quotes, repetitions, both spellings), the other decorations off.
+    The shape drawn must be that of the rule (words of the style string win over the option's; `ul` in the style string is
+    not a shape word), the rule / box carries the decoration option's colours, the text exactly the colours / attributes of
+    the style string without its decoration words. With --color-only: one output line per input line, nothing drawn."""
+    rng = ctx.rng
+    els = [e for e in decorated_elements() if e[0] in _DW_NEEDLE]
+    jobs = []
+    for el in els:
+        combos = set()
+        for ew in DW_ELEMENT_WORDS:
+            for dw in (DW_OPTION_WORDS if not ctx.quick() else rng.sample(DW_OPTION_WORDS, 5)):
+                combos.add((ew, dw))
+        for dw in DW_OPTION_WORDS:
+            for ew in (rng.sample(DW_ELEMENT_WORDS, 2) if ctx.quick() else []):
+                combos.add((ew, dw))
+        for ew, dw in sorted(combos):
+            base = (rng.choice(DECO_TEXT_COLOURS) + " " + rng.choice(["", "", "bold", "italic", "ul", "strike"])).split()
+            words = ew.split()
+            # decoration words at random positions among the colour / attribute words (order of the colours kept)
+            toks = list(base)
+            for w in words:
+                toks.insert(rng.randint(0, len(toks)), w)
+            deco = dw if dw in ("none", "", "plain") else (rng.choice(DECO_PREFIXES) + dw)
+            jobs.append(dict(el=el, style=" ".join(toks), deco=deco, tc=rng.randint(0, 1), co=False,
+                             width=rng.choice(["60", "60", "variable", "23"]), kind="words", src="cli"))
+        for ew in ["box", "underline", "overline underline", "ul box", ""]:
+            for dw in ["blue box", "ul", "none"]:
+                jobs.append(dict(el=el, style=("yellow " + ew).strip(), deco=dw, tc=1, co=True, width="60", kind="words", src="cli"))
+
+    def argv(j):
+        label, opt, deco_opt, stdin, env, args, finder, suffix, mreq = j["el"]
+        a = [("--width=" + j["width"]) if x.startswith("--width=") else x for x in args]
+        a.append("--true-color=" + ("always" if j["tc"] else "never"))
+        a.append("--%s=%s" % (opt, j["style"] + suffix))
+        a.append("--%s=%s" % (deco_opt, j["deco"]))
+        if j["co"]:
+            a = [x for x in a if not x.startswith("--line-numbers")] + ["--color-only"]
+        return a
+    results = parallel_map(lambda j: ctx.run_delta(argv(j), DIFF), jobs)
+    corr = []
+    n_in = len(DIFF.split(b"\n"))
+    for j, (rc, out, err) in zip(jobs, results):
+        label, opt, deco_opt, stdin, env, args, finder, suffix, mreq = j["el"]
+        a = argv(j)
+        kind, kept, dkept = decowords_rule(j["style"], j["deco"])
+        tail = "%s:style-words=%s:deco-words=%s" % (label, _dw_canon(j["style"]), _dw_canon(j["deco"]))
+        rep.case(key=("decowords-binary", label, j["style"], j["deco"], j["tc"], j["co"], j["width"]), nontrivial=True,
+                 sample=dict(op="decowords", element=label, style=j["style"], decoration=j["deco"], color_only=j["co"], rc=rc))
+        rep.count("decowords:binary:%s:%s%s" % (label, kind, ":color-only" if j["co"] else ""))
+        replay = dict(kind="decorated", element=label, option=opt, style=j["style"] + suffix, decoration_option=deco_opt,
+                      decoration=j["deco"], args=a, env={}, stdin="DIFF", true_color=j["tc"], source="cli", gitconfig=None)
+        if rc != 0:
+            if oracle_parse(kept) != "error" and oracle_parse(dkept) != "error":
+                _viol(rep, "decowords:valid-style-rejected:" + tail, "delta fails on decoration words of the grammar",
+                      dict(replay, rc=rc, stderr=err.decode("utf-8", "replace")[-300:]))
+            continue
+        dec = T.decode(out)
+        if j["co"]:
+            drawn = [c for r in dec.rows for c in r.cells if c.ch in RULECH]
+            if drawn:
+                _viol(rep, "decowords:color-only:decoration-drawn:" + tail,
+                      "--color-only draws a decoration requested by a style string", replay)
+            if len(out.split(b"\n")) != n_in:
+                _viol(rep, "decowords:color-only:line-count-differs:" + tail,
+                      "--color-only does not emit one line per input line", dict(replay, lines_in=n_in, lines_out=len(out.split(b"\n"))))
+            continue
+        shape, at = _observed_shape(dec, _DW_NEEDLE[label])
+        if shape is None:
+            _viol(rep, "decowords:element-missing:" + tail, "the decorated text is not in the output", replay)
+            continue
+        # draw.rs draws `box ol` and `box ul ol` as a plain box ("TODO: not implemented"); the help promises neither
+        ok = (shape == kind) or (kind in ("boxol", "boxulol") and shape in ("box", "boxul"))
+        if not ok:
+            _viol(rep, "decowords:shape-differs:" + tail,
+                  "the decoration drawn is not that of the decoration words (style string's words first, else the option's)",
+                  dict(replay, expected=kind, got=shape, rows=[r.text() for r in dec.rows[max(0, at - 1):at + 2]]))
+        exp = expected_style(kept, j["tc"], {}, opt)
+        cells = finder(dec)
+        if exp is not None and cells:
+            bad = [c for c in cells if not style_matches(c, exp)]
+            if bad:
+                _viol(rep, "decowords:text-style-differs:" + tail,
+                      "the text does not carry exactly the colours / attributes of its style string without the decoration words",
+                      dict(replay, stripped=kept, got=[T.style_key(c.fg, c.bg, c.attrs) for c in bad[:3]]))
+        dexp = expected_style(dkept, j["tc"], {}, deco_opt)
+        rule = [c for r in dec.rows for c in r.cells if c.ch in RULECH]
+        if kind != "none" and dexp is not None and rule:
+            heavy = "bold" in dexp[2]
+            if [c for c in rule if not style_matches(c, dexp)] or [c for c in rule if (c.ch in "━┃┓┛┻") != heavy]:
+                _viol(rep, "decowords:rule-style-differs:" + tail,
+                      "the rule / box does not carry the colours / attributes of the decoration option's string",
+                      dict(replay, decoration_without_shape_words=dkept))
+        if mreq is not None and j["tc"] == 1 and oracle_parse(kept) != "error":
+            jj = dict(j, kind="words:" + kind)
+            corr.append((jj, a, out, replay))
+    _corr_draw_header(ctx, rep, corr)
+
+
 def run(ctx, rep):
     rep.rule = ("style strings: exhaustive <=3 tokens over a 14-word vocabulary (attributes, omit/raw, named, bright, "
                 "number, #rrggbb, normal/auto/syntax), all 256 palette numbers as fg and bg, random #rrggbb, random "
@@ -2021,6 +2297,7 @@ def run(ctx, rep):
         corr_display_paint(ctx, rep, mdl, impl)
         display_property_oracle(ctx, rep, cases, impl)
         corr_config(ctx, rep, mdl, orc)
+        corr_decowords(ctx, rep, mdl)
     invariance_oracle(ctx, rep, orc)
     baseline = binary_oracle(ctx, rep)
     other_options_oracle(ctx, rep, baseline)
@@ -2028,6 +2305,7 @@ def run(ctx, rep):
     indirect_styles_oracle(ctx, rep)
     given_style_oracle(ctx, rep)
     decorated_text_oracle(ctx, rep)
+    deco_words_oracle(ctx, rep)
     show_config_round_trip(ctx, rep)
 
 
